@@ -60,23 +60,33 @@ def features(hist):
     return f
 
 
-def select(cands, k, rng, per_feature=3):
-    """Greedy cover of the (op, labels, modified) classes TLC attached to the steps, then random fill."""
+def select(cands, k, rng, rounds=3):
+    """Order programs so that every (call, labels, modified) class TLC attached to a step is covered as early
+    as possible: greedy set cover, repeated `rounds` times, then random fill.  (The driver runs the programs
+    in this order and may not get through all of them on a loaded machine.)"""
     rng.shuffle(cands)
-    need = {}
-    for h in cands:
-        for f in features(h):
-            need[f] = per_feature
-    chosen, rest = [], []
-    for h in cands:
-        fs = [f for f in features(h) if need.get(f, 0) > 0]
-        if fs and len(chosen) < k:
+    feats = [features(h) for h in cands]
+    chosen, used = [], set()
+    for _ in range(rounds):
+        need = set().union(*feats) if feats else set()
+        while need and len(chosen) < k:
+            best, gain = None, 0
+            for i, f in enumerate(feats):
+                if i in used:
+                    continue
+                g = len(f & need)
+                if g > gain:
+                    best, gain = i, g
+            if best is None:
+                break
+            used.add(best)
+            chosen.append(cands[best])
+            need -= feats[best]
+    for i, h in enumerate(cands):
+        if len(chosen) >= k:
+            break
+        if i not in used:
             chosen.append(h)
-            for f in fs:
-                need[f] -= 1
-        else:
-            rest.append(h)
-    chosen += rest[:max(0, k - len(chosen))]
     return chosen
 
 
@@ -230,7 +240,7 @@ def run(c):
                                  for s in h[1:]]))
     # 3. the real code
     binp = build_driver(c)
-    raw, summ = run_driver(c, binp, progs, nproc=c.pick(4, 6), budget=c.pick(55, 600))
+    raw, summ = run_driver(c, binp, progs, nproc=6, budget=c.pick(55, 600))
     traces = [(n, norm(e)) for n, e in raw]
     raw_by = dict(raw)
     if len(traces) < 40:
@@ -293,7 +303,7 @@ def run(c):
     }
     hit = {k: sum(cnt for v, cnt in classes.items() if fn(*v)) for k, fn in essential.items()}
     missing = [k for k, v in hit.items() if v == 0]
-    if missing:
+    if missing and not c.violations:
         raise vlib.InfraError("run is vacuous for: %s (no program reached these situations)" % missing)
     c.sample(dict(program=progs[0], trace=raw[0][1][:14]))
     c.sample(dict(program=progs[len(progs) // 2]))
